@@ -1,14 +1,14 @@
-\* List: 2 replicas, 4 ops (insert at every index incl. one past the end, append, delete at every index), causal delivery
+\* GList with repeated elements: 2 replicas, 3 inserts incl. copies of the right neighbour, any delivery order, merges
 CONSTANTS
-  Kind = "list"
+  Kind = "glist"
   NReps = 2
-  MaxOps = 4
-  Regime = "causal"
-  UseMerge = FALSE
+  MaxOps = 3
+  Regime = "any"
+  UseMerge = TRUE
   UseSnap = FALSE
   UseDup = FALSE
-  DupElems = FALSE
-  BeyondLen = 1
+  DupElems = TRUE
+  BeyondLen = 0
   Reps <- MCReps
   Actors <- MCActors
   ActorOf <- MCActorOf
